@@ -29,6 +29,13 @@ ASSUMPTIONS = ["a scene built in canonical order (nodes, parameters, attenuator,
 ENGINES = ["scene", "mockad"]
 QUICK = dict(cases=260, workers=4, timecap=50)
 THOROUGH = dict(cases=40000, workers=16, timecap=900)
+ASAN_MODULES = ["cherab.core.model.lineshape.gaussian", "cherab.core.model.lineshape.zeeman", "cherab.core.model.lineshape.beam.mse",
+                "cherab.core.model.plasma.impact_excitation", "cherab.core.model.plasma.recombination",
+                "cherab.core.model.plasma.thermal_cx", "cherab.core.model.plasma.bremsstrahlung",
+                "cherab.core.model.plasma.total_radiated_power", "cherab.core.model.beam.charge_exchange",
+                "cherab.core.model.beam.beam_emission", "cherab.core.model.attenuator.singleray",
+                "cherab.core.model.laser.model", "cherab.core.model.laser.math_functions", "cherab.core.model.laser.laserspectrum"]
+ASAN = dict(cases=400, workers=8, timecap=300)
 REQUIRED = {"observations_compared": 300, "mutators_applied": 300, "fresh_builds": 100}
 
 SPECIES_POOL = [("deuterium", 0), ("deuterium", 1), ("hydrogen", 0), ("helium", 1), ("helium", 2), ("carbon", 5),
@@ -95,6 +102,12 @@ def g_geom(rng):
 
 def g_shape(rng, m):
     m = dict(m)
+    if m["kind"] == "brems":
+        if rng.random() < 0.4:
+            m["gaunt"] = "AB"[int(rng.integers(2))]
+        if rng.random() < 0.3:
+            m["quad"] = _r(10 ** rng.uniform(-6, -3))
+        return m
     if m["kind"] in ("exc", "rec", "tcx", "bcx") and rng.random() < 0.3:
         m["shape"] = "zeeman"
         m["pol"] = ["no", "pi", "sigma"][int(rng.integers(3))]
@@ -263,6 +276,10 @@ def _sim_apply(sim, op):
         bc["models"][op["i"]] = dict(bc["models"][op["i"]], el=op["el"], q=op["q"], tr=op["tr"])
     elif k == "b_element":
         bc["element"] = op["v"]
+    elif k == "pm_gaunt":
+        pc["models"][op["i"]] = dict(pc["models"][op["i"]], gaunt=op["tag"])
+    elif k == "pm_quad":
+        pc["models"][op["i"]] = dict(pc["models"][op["i"]], quad=op["v"])
     elif k == "l_profile":
         sim["laser"]["profile"] = dict(op["pr"])
     elif k == "l_spectrum":
@@ -277,7 +294,7 @@ def _sim_apply(sim, op):
 
 P_OPS = ["p_bfield", "p_electrons", "p_comp_add", "p_comp_add", "p_comp_set", "p_comp_assign", "p_comp_clear", "p_geometry",
          "p_geom_transform", "p_integrator", "p_integrator_step", "p_atomic", "p_models_set", "p_models_assign", "p_models_add",
-         "p_models_clear", "p_transform", "p_transform", "p_parent", "node_transform"]
+         "p_models_clear", "p_transform", "p_transform", "p_parent", "node_transform", "pm_gaunt", "pm_quad"]
 B_OPS = ["b_energy", "b_power", "b_temperature", "b_sigma", "b_divergence_x", "b_divergence_y", "b_length", "b_element",
          "b_atomic", "b_plasma", "b_attenuator", "att_step", "att_clamp_sigma", "b_integrator",
          "b_integrator_step", "b_models_set", "b_models_assign", "b_models_add", "b_models_clear", "b_transform", "b_transform",
@@ -373,6 +390,14 @@ def gen_op(rng, sim):
         return dict(op=k, t=g_T(rng))
     if k == "p_parent":
         return dict(op=k, to=["world", "node"][int(rng.integers(2))])
+    if k in ("pm_gaunt", "pm_quad"):
+        idx = [i for i, m in enumerate(pc["models"]) if m["kind"] == "brems"]
+        if not idx:
+            return None
+        i = idx[int(rng.integers(len(idx)))]
+        if k == "pm_gaunt":
+            return dict(op=k, i=i, tag=[None, "A", "B"][int(rng.integers(3))])
+        return dict(op=k, i=i, v=_r(10 ** rng.uniform(-6, -3)))
     if bc is None:
         return None
     if k == "b_energy":
@@ -519,6 +544,10 @@ def minimise(case, sig, deadline):
     return hist, time.time() < deadline
 
 
+def crash_hint(case):
+    return "+".join(sorted(set(o["op"] for o in case["history"] if o["op"] != "observe")))[:200]
+
+
 _BUDGET = {"t0": None, "spent": 0.0}
 
 
@@ -545,7 +574,9 @@ def run_case(case, ctx):
         except Exception:  # noqa
             hist, complete = case["history"], False
     _BUDGET["spent"] += time.time() - t0
-    muts = sorted(set(o["op"] for o in hist if o["op"] != "observe"))
+    def label(o):
+        return o["op"] + ("." + o["attr"] if "attr" in o else "")
+    muts = sorted(set(label(o) for o in hist if o["op"] != "observe"))
     # was an observation needed before the last mutator?
     last_mut = max([i for i, o in enumerate(hist) if o["op"] != "observe"], default=-1)
     pre_obs = any(o["op"] == "observe" for o in hist[:last_mut]) if last_mut >= 0 else False
@@ -553,7 +584,7 @@ def run_case(case, ctx):
     if f["kind"] == "mutator-raises":
         key = "mutator-raises:%s:%s" % (f["op"], f["exc"])
         if complete:
-            others = [m for m in muts if m != f["op"]]
+            others = [m for m in muts if m.split(".")[0] != f["op"]]
             if others:
                 key += ":after:" + "+".join(others)
         else:
